@@ -133,3 +133,32 @@ Theorem C17_json_parser_write_after_parse : forall (pf : bytes -> option Z) vfai
                       JP.jp_writes pf JP.jparser0 s chunks = Ok (p2, s', e').
 Proof. exact JV.C17_json_write_reusable. Qed.
 Print Assumptions C17_json_parser_write_after_parse.
+
+(* UBJSON parser, behavioural form, NO side condition: [fresh_like p] = every field of the
+   initial parser except the element-type register [up_vtype], which is proved dead (written
+   before it is read).  After ANY accepted input the parser is fresh_like; and on a fresh_like
+   parser every operation (Parse b, or Write c1 .. cn then end) and hence every sequence of
+   operations gives the same events and verdict, for every visitor behaviour, as on a new
+   parser, and leaves it fresh_like again when accepted. *)
+From SF Require Ubjson.ReuseProofs.
+Module UR := SF.Ubjson.ReuseProofs.
+Theorem C17_ubj_parser_fresh_after : forall vfail b evs p,
+  UP.urun_parse vfail b = Ok (evs, UP.unilE, p) -> UR.fresh_like p.
+Proof. exact UR.C17_ubj_run_parse_fresh_noguard. Qed.
+Print Assumptions C17_ubj_parser_fresh_after.
+
+Theorem C17_ubj_parser_fresh_after_chunks : forall vfail chunks evs p,
+  UP.urun_chunks vfail chunks = Ok (evs, UP.unilE, p) -> UR.fresh_like p.
+Proof. exact UR.C17_ubj_run_chunks_fresh_noguard. Qed.
+Print Assumptions C17_ubj_parser_fresh_after_chunks.
+
+Theorem C17_ubj_parser_session_step : forall p s op, UR.fresh_like p ->
+  UR.out_rel (UR.uop_run UP.uparser0 s op) (UR.uop_run p s op) /\
+  (forall p' s', UR.uop_run p s op = Ok (p', s', UP.unilE) -> UR.fresh_like p').
+Proof. exact UR.C17_ubj_session_step_noguard. Qed.
+Print Assumptions C17_ubj_parser_session_step.
+
+Theorem C17_ubj_parser_session : forall ops p s, UR.fresh_like p ->
+  UR.out_rel (UR.usession_new s ops) (UR.usession p s ops).
+Proof. exact UR.C17_ubj_session_noguard. Qed.
+Print Assumptions C17_ubj_parser_session.
